@@ -1041,6 +1041,39 @@ theorem kept_length_lt {α : Type} (ps : List α) (bs : List Bool) (hl : bs.leng
       · simp [kept]; apply ih bs (by simpa using hl); simpa using ha
       · simp [kept]; have := kept_length_le ps bs; omega
 
+theorem fulfilled_sub {α : Type} (ps : List α) (bs : List Bool) : ∀ p ∈ fulfilled ps bs, p ∈ ps := by
+  induction ps generalizing bs with
+  | nil => simp [fulfilled]
+  | cons q ps ih =>
+    cases bs with
+    | nil => simp [fulfilled]
+    | cons b bs =>
+      cases b <;> simp only [fulfilled, Bool.false_eq_true, if_false, if_true]
+      · intro p hp; exact List.mem_cons_of_mem _ (ih bs p hp)
+      · intro p hp
+        rcases List.mem_cons.mp hp with h | h
+        · exact h ▸ List.mem_cons_self
+        · exact List.mem_cons_of_mem _ (ih bs p h)
+
+theorem kept_sub {α : Type} (ps : List α) (bs : List Bool) : ∀ p ∈ kept ps bs, p ∈ ps := by
+  induction ps generalizing bs with
+  | nil => simp [kept]
+  | cons q ps ih =>
+    cases bs with
+    | nil =>
+      simp only [kept]
+      intro p hp
+      rcases List.mem_cons.mp hp with h | h
+      · exact h ▸ List.mem_cons_self
+      · exact List.mem_cons_of_mem _ (ih [] p h)
+    | cons b bs =>
+      cases b <;> simp only [kept, Bool.false_eq_true, if_false, if_true]
+      · intro p hp
+        rcases List.mem_cons.mp hp with h | h
+        · exact h ▸ List.mem_cons_self
+        · exact List.mem_cons_of_mem _ (ih bs p h)
+      · intro p hp; exact List.mem_cons_of_mem _ (ih bs p hp)
+
 /-- What one call of the idle handler does when something is outstanding: one more round, at
     least one promise fewer outstanding, nothing else touched but channels and `fulfil` events. -/
 theorem idleRound_spec (mask : Option Nat) (S : Store) (hne : S.outstanding ≠ []) :
@@ -1141,6 +1174,143 @@ theorem waitLoop_spec (fuel : Nat) : ∀ (f : Fut) (sched : List Nat) (S : Store
         refine ⟨by rw [h1, hf], h2, by rw [h3, hsp.2.2.2.1, hm.crash], ?_⟩
         have := hsp.2.1; have := hm.next; omega
 
+/-! ## §6b settling the promises a failed selection set left behind (repair of F-11a) -/
+
+/-- What `settleSerialPromises` does to the store: only `fulfil` events of promises that were
+    outstanding are logged, nothing is created, no crash flag, the invariant is kept, every channel
+    is emptied, and with enough rounds nothing stays outstanding. -/
+theorem settleLoop_spec (n : Nat) : ∀ (sched : List Nat) (S : Store),
+    (∃ l, (settleLoop n sched S).2.log = S.log ++ l ∧ ∀ e ∈ l, ∃ p ∈ S.outstanding, e = Entry.fulfil p.2) ∧
+    (settleLoop n sched S).2.nextId = S.nextId ∧ (settleLoop n sched S).2.crash = S.crash ∧
+    (Inv S → Inv (settleLoop n sched S).2) ∧ (settleLoop n sched S).2.chan = [] ∧
+    (S.outstanding.length ≤ n → (settleLoop n sched S).2.outstanding = []) ∧
+    (∀ p ∈ (settleLoop n sched S).2.outstanding, p ∈ S.outstanding) ∧
+    S.rounds ≤ (settleLoop n sched S).2.rounds := by
+  induction n with
+  | zero =>
+    intro sched S
+    simp only [settleLoop]
+    refine ⟨⟨[], by simp, by simp⟩, by simp, by simp, fun h => by simpa [Inv] using h, by simp, fun h => ?_,
+      fun p hp => by simpa using hp, by simp⟩
+    cases ho : S.outstanding with
+    | nil => rfl
+    | cons a l => rw [ho] at h; simp at h
+  | succ n ih =>
+    intro sched S
+    by_cases he : S.outstanding = []
+    · have : S.outstanding.isEmpty = true := by simp [he]
+      simp only [settleLoop, this, if_true]
+      exact ⟨⟨[], by simp, by simp⟩, by simp, by simp, fun h => by simpa [Inv] using h, by simp, fun _ => he,
+        fun p hp => by simpa using hp, by simp⟩
+    · have hemp : S.outstanding.isEmpty = false := by cases h : S.outstanding <;> simp_all
+      simp only [settleLoop, hemp, Bool.false_eq_true, if_false]
+      obtain ⟨h1, h2, h3, h4, h5, h6⟩ := idleRound_spec sched.head? S he
+      obtain ⟨⟨l, hl, hle⟩, i2, i3, i4, i5, i6, i7, i8⟩ := ih sched.tail (idleRound sched.head? S)
+      refine ⟨⟨List.map (fun p => Entry.fulfil p.snd)
+            (fulfilled S.outstanding (picks sched.head? S.outstanding.length)) ++ l,
+          by rw [hl, h5, List.append_assoc], ?_⟩, by rw [i2, h2], by rw [i3, h4],
+        fun hi => i4 (idleRound_inv _ _ he hi), i5, fun hlen => i6 (by omega), ?_, by omega⟩
+      · intro e hmem
+        rcases List.mem_append.mp hmem with hm | hm
+        · obtain ⟨p, hp, rfl⟩ := List.mem_map.mp hm
+          exact ⟨p, (fulfilled_sub _ _ p hp), rfl⟩
+        · obtain ⟨p, hp, rfl⟩ := hle e hm
+          rw [h6] at hp
+          exact ⟨p, kept_sub _ _ p hp, rfl⟩
+      · intro p hp
+        have := i7 p hp
+        rw [h6] at this
+        exact kept_sub _ _ p this
+
+theorem waitSettle_done (st : Bool) (fuel : Nat) (f : Fut) (sched sched' : List Nat) (S S3 : Store) (r : Res)
+    (h : waitLoop fuel f sched S = (.done r, sched', S3)) :
+    waitSettle st fuel f sched S =
+      (.done r, if st then (settleLoop S3.outstanding.length sched' S3).1 else sched',
+        if st then (settleLoop S3.outstanding.length sched' S3).2 else S3) := by
+  cases st <;> simp [waitSettle, h]
+
+theorem waitSettle_stuck (st : Bool) (fuel : Nat) (f : Fut) (sched sched' : List Nat) (S S3 : Store)
+    (h : waitLoop fuel f sched S = (.stuck, sched', S3)) : waitSettle st fuel f sched S = (.stuck, sched', S3) := by
+  simp [waitSettle, h]
+
+theorem waitSettle_outOfFuel (st : Bool) (fuel : Nat) (f : Fut) (sched sched' : List Nat) (S S3 : Store)
+    (h : waitLoop fuel f sched S = (.outOfFuel, sched', S3)) :
+    waitSettle st fuel f sched S = (.outOfFuel, sched', S3) := by
+  simp [waitSettle, h]
+
+/-- Reduction of a statement about `waitSettle` to `waitLoop` + the settle step. -/
+theorem waitSettle_cases (st : Bool) (fuel : Nat) (f : Fut) (sched : List Nat) (S : Store)
+    (P : WaitResult × List Nat × Store → Prop)
+    (hdone : ∀ r sched' S3, waitLoop fuel f sched S = (.done r, sched', S3) →
+      P (.done r, if st then (settleLoop S3.outstanding.length sched' S3).1 else sched',
+        if st then (settleLoop S3.outstanding.length sched' S3).2 else S3))
+    (hother : ∀ w sched' S3, waitLoop fuel f sched S = (w, sched', S3) → (∀ r, w ≠ .done r) → P (w, sched', S3)) :
+    P (waitSettle st fuel f sched S) := by
+  rcases hwl : waitLoop fuel f sched S with ⟨w, sched', S3⟩
+  cases w with
+  | done r => rw [waitSettle_done st fuel f sched sched' S S3 r hwl]; exact hdone r sched' S3 hwl
+  | stuck => rw [waitSettle_stuck st fuel f sched sched' S S3 hwl]; exact hother _ _ _ hwl (by intro r h; cases h)
+  | outOfFuel =>
+    rw [waitSettle_outOfFuel st fuel f sched sched' S S3 hwl]; exact hother _ _ _ hwl (by intro r h; cases h)
+
+theorem waitSettle_spec (st : Bool) (fuel : Nat) (f : Fut) (sched : List Nat) (S : Store) (hi : Inv S) :
+    ∀ r, (waitSettle st fuel f sched S).1 = .done r →
+      r.out = f.out ∧ Inv (waitSettle st fuel f sched S).2.2 ∧ (waitSettle st fuel f sched S).2.2.crash = S.crash ∧
+      S.nextId ≤ (waitSettle st fuel f sched S).2.2.nextId := by
+  apply waitSettle_cases st fuel f sched S
+    (P := fun R => ∀ r, R.1 = .done r → r.out = f.out ∧ Inv R.2.2 ∧ R.2.2.crash = S.crash ∧ S.nextId ≤ R.2.2.nextId)
+  · intro r sched' S3 hwl r' hr
+    simp only [WaitResult.done.injEq] at hr; subst hr
+    have hw := waitLoop_spec fuel f sched S hi r (by rw [hwl])
+    rw [hwl] at hw
+    obtain ⟨a, b, c, d⟩ := hw
+    cases st
+    · exact ⟨a, b, c, d⟩
+    · obtain ⟨_, i2, i3, i4, _⟩ := settleLoop_spec S3.outstanding.length sched' S3
+      simp only [if_true]
+      exact ⟨a, i4 b, by rw [i3]; exact c, by rw [i2]; exact d⟩
+  · intro w sched' S3 _ hne r hr; exact absurd hr (hne r)
+
+/-- How the store after `waitSettle` relates to the store after the `waitLoop` inside it: only
+    `fulfil` events of promises that were outstanding were appended; nothing was created. -/
+structure Settled (S S' : Store) : Prop where
+  log : ∃ l, S'.log = S.log ++ l ∧ ∀ e ∈ l, ∃ p ∈ S.outstanding, e = Entry.fulfil p.2
+  next : S'.nextId = S.nextId
+  crash : S'.crash = S.crash
+  inv : Inv S → Inv S'
+  out : ∀ p ∈ S'.outstanding, p ∈ S.outstanding
+  rounds : S.rounds ≤ S'.rounds
+
+theorem Settled.refl (S : Store) : Settled S S :=
+  ⟨⟨[], by simp, by simp⟩, rfl, rfl, fun h => h, fun _ h => h, Nat.le_refl _⟩
+
+theorem settleLoop_settled (n : Nat) (sched : List Nat) (S : Store) : Settled S (settleLoop n sched S).2 := by
+  obtain ⟨a, b, c, d, _, _, g, h⟩ := settleLoop_spec n sched S
+  exact ⟨a, b, c, d, g, h⟩
+
+/-- `waitSettle` is `waitLoop` followed by a `Settled` step; with the switch on, a `done` leaves
+    nothing outstanding and no channel holding a message. -/
+theorem waitSettle_settled (st : Bool) (fuel : Nat) (f : Fut) (sched : List Nat) (S : Store) :
+    ∃ sched0 S3, waitLoop fuel f sched S = ((waitSettle st fuel f sched S).1, sched0, S3) ∧
+      Settled S3 (waitSettle st fuel f sched S).2.2 ∧
+      (st = true → ∀ r, (waitSettle st fuel f sched S).1 = .done r →
+        (waitSettle st fuel f sched S).2.2.outstanding = [] ∧ (waitSettle st fuel f sched S).2.2.chan = []) := by
+  rcases hwl : waitLoop fuel f sched S with ⟨w, sched', S3⟩
+  cases w with
+  | done r =>
+    rw [waitSettle_done st fuel f sched sched' S S3 r hwl]
+    cases st
+    · exact ⟨sched', S3, rfl, Settled.refl _, fun h => by cases h⟩
+    · refine ⟨sched', S3, rfl, settleLoop_settled _ _ _, fun _ r' _ => ?_⟩
+      obtain ⟨_, _, _, _, i5, i6, _⟩ := settleLoop_spec S3.outstanding.length sched' S3
+      exact ⟨i6 (Nat.le_refl _), i5⟩
+  | stuck =>
+    rw [waitSettle_stuck st fuel f sched sched' S S3 hwl]
+    exact ⟨sched', S3, rfl, Settled.refl _, fun _ r h => by cases h⟩
+  | outOfFuel =>
+    rw [waitSettle_outOfFuel st fuel f sched sched' S S3 hwl]
+    exact ⟨sched', S3, rfl, Settled.refl _, fun _ r h => by cases h⟩
+
 /-! ## §7 whole requests -/
 
 /-- Outcome of a serially executed root selection set. -/
@@ -1148,32 +1318,32 @@ def serialOut (fields : List Field) (n : Nat) : Out :=
   if Spec.fieldsOk fields [] then .ok (.obj [] n) else .fail
 
 /-- What `execSerial` does with the outcome of waiting for the current root field. -/
-def serialCont (fuel : Nat) (rest : List Field) (n i : Nat) (key : String) (w : WaitResult × List Nat × Store) :
+def serialCont (st : Bool) (fuel : Nat) (rest : List Field) (n i : Nat) (key : String) (w : WaitResult × List Nat × Store) :
     WaitResult × List Nat × Store :=
   match w with
   | (.done (.err e), sched', S3) => (.done (.err e), sched', S3)
-  | (.done (.ok v), sched', S3) => execSerial fuel rest n (i + 1) sched' (S3.push (.write [] i key v))
+  | (.done (.ok v), sched', S3) => execSerial st fuel rest n (i + 1) sched' (S3.push (.write [] i key v))
   | (w, sched', S3) => (w, sched', S3)
 
-theorem execSerial_cons (fuel : Nat) (key : String) (nn : Bool) (mode : Mode) (rerr : Option String) (c : Comp)
+theorem execSerial_cons (st : Bool) (fuel : Nat) (key : String) (nn : Bool) (mode : Mode) (rerr : Option String) (c : Comp)
     (rest : List Field) (n i : Nat) (sched : List Nat) (S S1 S2 : Store) (f0 f : Fut) (hm : mode ≠ .tname)
     (h1 : execField nn mode rerr c [.key key] (complete nn c [.key key]) S = (f0, S1))
     (h2 : catchIfNullable nn f0 S1 = (f, S2)) :
-    execSerial fuel (.mk key nn mode rerr c :: rest) n i sched S =
-      serialCont fuel rest n i key (waitLoop fuel f sched S2) := by
+    execSerial st fuel (.mk key nn mode rerr c :: rest) n i sched S =
+      serialCont st fuel rest n i key (waitSettle st fuel f sched S2) := by
   cases mode
   all_goals first
     | exact absurd rfl hm
     | (simp only [execSerial, h1, h2, serialCont]
-       rcases waitLoop fuel f sched S2 with ⟨w, s', S3⟩
+       rcases waitSettle st fuel f sched S2 with ⟨w, s', S3⟩
        cases w with
        | done r => cases r <;> rfl
        | _ => rfl)
 
-theorem execSerial_spec (fuel : Nat) : ∀ (fields : List Field) (n i : Nat) (sched : List Nat) (S : Store), Inv S →
-    ∀ r, (execSerial fuel fields n i sched S).1 = .done r →
-      r.out = serialOut fields n ∧ Inv (execSerial fuel fields n i sched S).2.2 ∧
-      (execSerial fuel fields n i sched S).2.2.crash = S.crash := by
+theorem execSerial_spec (st : Bool) (fuel : Nat) : ∀ (fields : List Field) (n i : Nat) (sched : List Nat) (S : Store), Inv S →
+    ∀ r, (execSerial st fuel fields n i sched S).1 = .done r →
+      r.out = serialOut fields n ∧ Inv (execSerial st fuel fields n i sched S).2.2 ∧
+      (execSerial st fuel fields n i sched S).2.2.crash = S.crash := by
   intro fields
   induction fields with
   | nil =>
@@ -1199,9 +1369,9 @@ theorem execSerial_spec (fuel : Nat) : ∀ (fields : List Field) (n i : Nat) (sc
           have a := execField_mono nn mode rerr c [.key key] (complete nn c [.key key]) S (fun S' => complete_mono _ _ _ _)
           have b := catchIfNullable_mono nn f0 S1
           rw [h1] at a; rw [h2] at b; exact a.trans b
-        rw [execSerial_cons fuel key nn mode rerr c rest n i sched S S1 S2 f0 f hm h1 h2] at h ⊢
-        have hw := waitLoop_spec fuel f sched S2 (hmono.inv hi)
-        rcases hwl : waitLoop fuel f sched S2 with ⟨w, sched', S3⟩
+        rw [execSerial_cons st fuel key nn mode rerr c rest n i sched S S1 S2 f0 f hm h1 h2] at h ⊢
+        have hw := waitSettle_spec st fuel f sched S2 (hmono.inv hi)
+        rcases hwl : waitSettle st fuel f sched S2 with ⟨w, sched', S3⟩
         rw [hwl] at h hw
         simp only [serialCont] at h ⊢
         cases w with
@@ -1238,8 +1408,8 @@ theorem execute_spec (rq : Request) (r : Res) (h : (execute rq).1 = .done r) :
   unfold execute at h ⊢
   by_cases hmut : rq.mutation = true
   · simp only [hmut, if_true] at h ⊢
-    have hs := execSerial_spec (Field.invocationsL rq.fields + 1) rq.fields rq.fields.length 0 rq.sched {} Inv_init
-    rcases hx : execSerial (Field.invocationsL rq.fields + 1) rq.fields rq.fields.length 0 rq.sched {} with ⟨w, sched', S⟩
+    have hs := execSerial_spec rq.settle (Field.invocationsL rq.fields + 1) rq.fields rq.fields.length 0 rq.sched {} Inv_init
+    rcases hx : execSerial rq.settle (Field.invocationsL rq.fields + 1) rq.fields rq.fields.length 0 rq.sched {} with ⟨w, sched', S⟩
     rw [hx] at h hs
     cases w with
     | done r' =>
